@@ -19,10 +19,13 @@ RULE = ("the complete C11 primitive lattice, the C10 thrift lattice (incl. paylo
         "exact-size heap buffers and PYTHONMALLOC=malloc (bytes objects get redzones too). Added under the same "
         "build: S sizing points of ThriftObject.to_bytes (key-value text above the floor on a footer without row "
         "groups, one 510000-byte path_in_schema element, a statistics value of 499950 bytes that fits the buffer "
-        "but not what is left of it, a RowGroup root of 600 columns x 1000-byte statistics; thorough: a 4000-column "
+        "but not what is left of it, a RowGroup root of 600 columns x 1000-byte statistics, an OffsetIndex of 40000 "
+        "page locations = integers only, in 9 byte alignments against the end of the buffer; thorough: a 4000-column "
         "hive write); P primitive cells with counts above 2^16 (read_rle, read_bitpacked, read_bitpacked1, hybrid "
         "streams with 3-byte run headers, delta, byte arrays: 70000 values, capacities n-1/n/n+1) and byte-array "
-        "items of every length 0..17, 31..33, 63..65 as the last item of the buffer (bytes and utf8); C03 D1 with "
+        "items of every length 0..17, 31..33, 63..65 as the last item of the buffer (bytes and utf8); the encoders at "
+        "the end of their output buffer (varints of every length 1..10 with 0..12 bytes of room, encode_bitpacked / "
+        "encode_rle_bp with every capacity around their need; canary slice and exact-size allocation); C03 D1 with "
         "categories for v2 pages at widths 1,8,9,16, D10 (multi-page dictionary chunks), D3b (delta pages under "
         "codecs: freshly allocated exact-size pages), D12 (zero-value pages); N the C15 nested lattice (all six "
         "LIST/MAP shapes x INT64/UTF8 x PLAIN/dictionary x v1/v2, sequences of <= 2 rows in quick, the whole "
@@ -78,6 +81,12 @@ def sizing_points(tier):
                      ("rowgroup_root", 1000)):
         for route in ("R1", "R2"):
             pts.append({"kind": "sizing", "where": where, "n": n, "route": route, "_fresh": True})
+    # a structure of integers only (no memcpy) that outgrows the buffer: the checked small writes must drop what
+    # does not fit, wherever in a multi-byte varint the end of the buffer falls (9 alignments)
+    for shift in range(9):
+        # (parsed route only: the writer's marker scheme cannot express PageLocation's mixed integer widths)
+        pts.append({"kind": "sizing", "where": "offset_index", "n": 40000, "shift": shift, "route": "R2",
+                    "_fresh": True})
     if tier == "thorough":
         pts.append({"kind": "sizing", "where": "write_hive_wide", "n": 4000, "route": "write", "_fresh": True})
     return pts
@@ -89,7 +98,7 @@ BIG_N = 70000       # > 2^16 values: 3-byte run headers, counters wider than 16 
 def prim12_points(tier):
     pts = [{"prim12": "rle_big"}, {"prim12": "bitpacked_big"}, {"prim12": "hybrid_big"}, {"prim12": "bool_big"},
            {"prim12": "delta_big", "longval": 0}, {"prim12": "delta_big", "longval": 1},
-           {"prim12": "byte_array_big"}, {"prim12": "byte_array_lens"}]
+           {"prim12": "byte_array_big"}, {"prim12": "byte_array_lens"}, {"prim12": "encoders_tight"}]
     return pts
 
 
@@ -375,6 +384,13 @@ def run_sizing(point):
         v = C10.fmd_value(I, 1, 600, 0)["row_groups"][0]
         for ch in v["columns"]:
             ch["meta_data"]["statistics"] = {"max": b"M" * n, "min": b"m" * n, "null_count": 0}
+    elif where == "offset_index":
+        sname = "OffsetIndex"
+        locs = [{"offset": 1000000 + 70000 * i, "compressed_page_size": 66000 + (i % 7), "first_row_index": 20000 * i}
+                for i in range(n)]
+        # the first offset's varint has 1 + shift bytes: everything behind it moves by that much
+        locs[0]["offset"] = (1 << (7 * point["shift"])) >> 1
+        v = {"page_locations": locs}
     else:
         raise KeyError(where)
     if point["route"] == "R1":
@@ -585,6 +601,81 @@ def _p12_byte_array_lens(c, p, np, ce):
                     if len(got) != n or list(got[:k]) != exp:
                         c.bad("wrong_value", "unpack_byte_array(lengths=%r,n=%d,%s)" % ([len(x) for x in items], n, flavour),
                               fn="unpack_byte_array")
+
+
+def _uvarint(v):
+    out = bytearray()
+    while v > 127:
+        out.append((v & 0x7F) | 0x80)
+        v >>= 7
+    out.append(v)
+    return bytes(out)
+
+
+def _p12_encoders_tight(c, p, np, ce):
+    """the encoders at the end of their output buffer ("write_* are checked"): every varint length 1..10 with 0..12
+    bytes of room behind a cursor at 0 or 3, and the bit-packing encoders with every capacity around what they
+    need.  What does not fit may be dropped; nothing may be written outside the slice, the cursor stays inside it and
+    what was written is a prefix of the specified encoding.  The slice lies inside a canary area and, a second time,
+    is an exact-size heap allocation of its own (the sanitiser's redzone)."""
+    from mc.specpq import codecs as C
+    vals = [0, 1, 127] + [1 << (7 * k) for k in range(1, 10)] + [(1 << (7 * k)) - 1 for k in range(2, 10)] + [(1 << 64) - 1]
+    for v in vals:
+        enc = _uvarint(v)
+        for start in (0, 3):
+            for room in range(0, 13):
+                what = "encode_unsigned_varint(%d: %d bytes) with %d byte(s) of room behind cursor %d" % (v, len(enc), room, start)
+                for exact in (False, True):
+                    if exact:
+                        big = out = np.empty(max(start + room, 1), dtype=np.uint8)[:start + room]
+                        out[:] = CANARY
+                    else:
+                        big, out = _obuf(np, start + room)
+                    o = ce.NumpyIO(out)
+                    o.seek(start)
+                    ce.encode_unsigned_varint(v, o)
+                    c.calls += 1
+                    c.vals += 1
+                    if not exact and not bool((big[:32] == CANARY).all() and (big[32 + len(out):] == CANARY).all()):
+                        c.bad("canary_overwritten", what + ": bytes outside the output slice were written",
+                              fn="encode_unsigned_varint")
+                    if o.tell() > start + room:
+                        c.bad("cursor_past_end", what + ": cursor at %d, the buffer has %d bytes" % (o.tell(), start + room),
+                              fn="encode_unsigned_varint")
+                    got = bytes(out[start:min(o.tell(), start + room)])
+                    if not enc.startswith(got) or (room >= len(enc) and got != enc):
+                        c.bad("wrong_value", what + ": wrote %s, the encoding is %s" % (got.hex(), enc.hex()),
+                              fn="encode_unsigned_varint")
+                    if bytes(out[:start]) != bytes([CANARY]) * start:
+                        c.bad("canary_overwritten", what + ": bytes before the cursor were written", fn="encode_unsigned_varint")
+    for n, w in ((1, 1), (8, 1), (9, 3), (16, 8), (24, 9), (520, 1), (1030, 8)):
+        arr = np.array([(i * 5 + 1) % (1 << w) for i in range(n)], dtype=np.int32)
+        spec = _uvarint(((n + 7) // 8) << 1 | 1) + C.bitpack([int(x) for x in arr] + [0] * (-n % 8), w)[:(n * w + 7) // 8]
+        for fn, withlen in (("encode_bitpacked", 0), ("encode_rle_bp", 0), ("encode_rle_bp", 1)):
+            need = len(spec) + 4 * withlen
+            for cap in sorted({0, 1, 2, 3, 4, 5, 6, need - 2, need - 1, need, need + 1} - {-1, -2}):
+                what = "%s(n=%d,width=%d) into %d bytes (needs %d)" % (fn, n, w, cap, need)
+                for exact in (False, True):
+                    if exact:
+                        big = out = np.empty(max(cap, 1), dtype=np.uint8)[:cap]
+                        out[:] = CANARY
+                    else:
+                        big, out = _obuf(np, cap)
+                    o = ce.NumpyIO(out)
+                    try:
+                        if fn == "encode_bitpacked":
+                            ce.encode_bitpacked(arr, w, o)
+                        else:
+                            ce.encode_rle_bp(arr, w, o, withlen)
+                    except Exception:
+                        pass        # a refusal is fine
+                    c.calls += 1
+                    c.vals += n
+                    if not exact and not bool((big[:32] == CANARY).all() and (big[32 + len(out):] == CANARY).all()):
+                        c.bad("canary_overwritten", what + ": bytes outside the output slice were written", fn=fn)
+                    if cap >= need and bytes(out[4 * withlen:need]) != spec:
+                        c.bad("wrong_value", what + ": wrote %s..., the encoding is %s..." % (
+                            bytes(out[4 * withlen:need])[:12].hex(), spec[:12].hex()), fn=fn)
 
 
 # ---------------------------------------------------------------------------- W: native write path, self-made read paths
